@@ -23,6 +23,16 @@ def run(model, tier="quick"):
     res.rules = ["R-ATOM"]
     n = run_atom(model, res, "C04", max_depth=8 if tier == "quick" else 10)
     res.floor("operations_with_state_writes", n, 30)
+    # the visible order book is a cell of the status row holding level LISTS: a rejected operation leaves it intact only
+    # if no in-place mutation can reach those lists (R-ATOM sees stores to state paths, not mutations through aliases)
+    from ..rules.alias import cell_mutation_rule
+    res.rules.append("R-INPUT")
+    mutating, _nf = cell_mutation_rule(model, res)
+    res.ob("R-INPUT", f"no in-place mutation reaches the order-book level lists (parameter-mutating functions: {sorted(mutating)})",
+           "demeter/deribit/", ok=_nf == 0)
+    from ..rules.rollback import rollback_rule
+    res.rules.append("R-PAIR")
+    res.units["compensation_handlers"] = rollback_rule(model, res)
     uncl = unclassified_fields(model)
     if uncl:
         res.notes.append("unclassified fields treated as holdings: " + ", ".join(uncl))
